@@ -749,8 +749,9 @@ func ruleSSubUse(c *Ctx) {
 		}
 		var sub, unparse, clone, hash *ssa.Call
 		var storeScript *ssa.Store
-		for _, b := range h.Blocks {
-			for _, ins := range b.Instrs {
+		view := viewOf(h) // with the helpers the handler was split into
+		{
+			for _, ins := range view.Instrs {
 				switch x := ins.(type) {
 				case *ssa.Call:
 					if sc := x.Call.StaticCallee(); sc != nil {
@@ -775,7 +776,7 @@ func ruleSSubUse(c *Ctx) {
 		ok := sub != nil && unparse != nil && clone != nil && hash != nil && storeScript != nil
 		detail := ""
 		if ok {
-			env := newTermEnv()
+			env := view.Env
 			// Unparse's argument derives from subScript (through the removals)
 			derives := false
 			var from func(v ssa.Value, d int) bool
@@ -807,14 +808,14 @@ func ruleSSubUse(c *Ctx) {
 			idx := atomName(env.Term(hash.Call.Args[1]))
 			okStore := strings.Contains(st, "Clone(p1.tx).Inputs[p1.inputIdx].PreviousTxScript")
 			okHash := strings.Contains(hv, "Clone(p1.tx)") && idx == "uint32(p1.inputIdx)"
-			okShf := lastByteOf(hash.Call.Args[2], 0) != nil
+			okShf := lastByteOf(env.Val(hash.Call.Args[2]), 0) != nil
 			// the hash verified is the direct result of this digest call
 			okVerify := false
-			for _, b := range h.Blocks {
-				for _, ins := range b.Instrs {
+			{
+				for _, ins := range view.Instrs {
 					if vc, isC := ins.(*ssa.Call); isC {
 						if sc := vc.Call.StaticCallee(); sc != nil && sc.Name() == "Verify" && len(vc.Call.Args) >= 2 {
-							if ex, isEx := vc.Call.Args[1].(*ssa.Extract); isEx && ex.Tuple == ssa.Value(hash) && ex.Index == 0 {
+							if ex, isEx := env.Val(vc.Call.Args[1]).(*ssa.Extract); isEx && ex.Tuple == ssa.Value(hash) && ex.Index == 0 {
 								okVerify = true
 							}
 						}
